@@ -10,6 +10,7 @@ namespace OP2Utility
 	ImageHeader ImageHeader::Create(int32_t width, int32_t height, uint16_t bitCount)
 	{
 		VerifyValidBitCount(bitCount);
+		VerifyDimensions(width, height);
 
 		return ImageHeader{
 			sizeof(ImageHeader),
@@ -66,6 +67,18 @@ namespace OP2Utility
 		}
 	}
 
+	void ImageHeader::VerifyDimensions(int32_t width, int32_t height)
+	{
+		if (width < 0) {
+			throw std::runtime_error("An image width of " + std::to_string(width) + " is not supported. Width may not be negative");
+		}
+
+		// The absolute value of the most negative height is not representable
+		if (height == INT32_MIN) {
+			throw std::runtime_error("An image height of " + std::to_string(height) + " is not supported");
+		}
+	}
+
 	std::size_t ImageHeader::CalculatePitch() const
 	{
 		return ImageHeader::CalculatePitch(bitCount, width);
@@ -107,6 +120,7 @@ namespace OP2Utility
 		}
 
 		VerifyValidBitCount(bitCount);
+		VerifyDimensions(width, height);
 
 		if (usedColorMapEntries > CalcMaxIndexedPaletteSize()) {
 			throw std::runtime_error("Used color map entries is greater than possible range of color map (palette)");
